@@ -61,6 +61,7 @@ package mautil
 
 //@ func MultiaddrsEqual
 //@   property C20
+//@   loop 1: invariant 0 <= i
 //@   ensures len(ma1) != len(ma2) ==> !result
 //@   ensures len(ma1) == len(ma2) && len(ma1) == 0 ==> result
 
@@ -68,3 +69,4 @@ package mautil
 //@   property C20
 //@   ensures len(addrs) == 0 ==> result0 == nil && result1 == nil
 //@   ensures len(result0) <= len(addrs)
+//@   loop 1: invariant len(maddrs) <= rangeindex + 1 && rangeindex < len(addrs) && len(maddrs) <= cap(maddrs) && cap(maddrs) == len(addrs)
